@@ -129,6 +129,24 @@ func (c *Cfg3s) Validate() error {
 	)
 }
 
+// CfgS: a structure whose nested structure requires a field whatever happens (no mask: a nested structure that received no
+// value at all is entirely zero, and is validated all the same).
+type CfgInner struct {
+	Host string `mapstructure:"host" verif:"required"`
+	Port int    `mapstructure:"port"`
+}
+
+func (c *CfgInner) Validate() error {
+	return validation.ValidateStruct(c, validation.Field(&c.Host, validation.Required))
+}
+
+type CfgS struct {
+	Name  string   `mapstructure:"name"`
+	Inner CfgInner `mapstructure:"inner"`
+}
+
+func (c *CfgS) Validate() error { return config.ValidateEmbedded(c) }
+
 // leafInfo describes one leaf of a family by reflection.
 type leafInfo struct {
 	GoPath  []string // Go field names from the root
@@ -138,6 +156,7 @@ type leafInfo struct {
 	Index   [][]int
 	ReqBit  uint8    // bit in the owner's mask
 	Owner   []string // Go path of the owning struct
+	Static  bool     // required whatever the case says (tag verif:"required")
 }
 
 func leavesOf(t reflect.Type, goPath, tagPath []string) []leafInfo {
@@ -155,7 +174,7 @@ func leavesOf(t reflect.Type, goPath, tagPath []string) []leafInfo {
 			out = append(out, leavesOf(f.Type, gp, tp)...)
 			continue
 		}
-		out = append(out, leafInfo{GoPath: gp, TagPath: tp, Kind: f.Type.Kind(), IsDur: f.Type == reflect.TypeOf(time.Duration(0)), ReqBit: bit, Owner: goPath})
+		out = append(out, leafInfo{GoPath: gp, TagPath: tp, Kind: f.Type.Kind(), IsDur: f.Type == reflect.TypeOf(time.Duration(0)), ReqBit: bit, Owner: goPath, Static: f.Tag.Get("verif") == "required"})
 		bit <<= 1
 	}
 	return out
@@ -169,12 +188,14 @@ func newFamily(name string) config.IServiceConfiguration {
 		return &Cfg2{}
 	case "depth3":
 		return &Cfg3{}
+	case "static-nested":
+		return &CfgS{}
 	default:
 		return &Cfg3s{}
 	}
 }
 
-var families = []string{"depth1", "depth2", "depth3", "depth3-siblings"}
+var families = []string{"depth1", "depth2", "depth3", "depth3-siblings", "static-nested"}
 
 func (l leafInfo) get(root reflect.Value) reflect.Value {
 	v := root.Elem()
@@ -243,6 +264,9 @@ func genCase(t *rapid.T) Case {
 		}
 		p.FlagBound = contains(p.Sources, "flag") || rapid.IntRange(0, 3).Draw(t, fmt.Sprintf("l%d-bound", i)) == 0
 		p.Required = rapid.IntRange(0, 3).Draw(t, fmt.Sprintf("l%d-req", i)) == 0
+		if c.Family == "static-nested" {
+			p.Required = ls[i].Static
+		}
 		p.ZeroFlag = contains(p.Sources, "flag") && rapid.IntRange(0, 5).Draw(t, fmt.Sprintf("l%d-zeroflag", i)) == 0
 		if contains(p.Sources, "flag") && !p.ZeroFlag && ls[i].Kind != reflect.Bool && rapid.IntRange(0, 5).Draw(t, fmt.Sprintf("l%d-twoflags", i)) == 0 {
 			p.TwoFlags = true
@@ -252,6 +276,30 @@ func genCase(t *rapid.T) Case {
 			p.FlagDefault = true
 		}
 		c.Leaves = append(c.Leaves, p)
+	}
+	// one nested structure may be left without any value at all (no source for any of its fields, no flag): it is still
+	// validated, and a required field of it is reported
+	if rapid.IntRange(0, 4).Draw(t, "empty-nested") == 0 {
+		var nested []int
+		for i := range ls {
+			if len(ls[i].Owner) > 0 {
+				nested = append(nested, i)
+			}
+		}
+		if len(nested) > 0 {
+			pick := ls[nested[rapid.IntRange(0, len(nested)-1).Draw(t, "which-nested")]].Owner
+			own := strings.Join(pick, ".")
+			first := true
+			for i := range ls {
+				o := strings.Join(ls[i].Owner, ".")
+				if o == own || strings.HasPrefix(o, own+".") {
+					c.Leaves[i] = LeafPlan{Required: (first && o == own && c.Family != "static-nested") || ls[i].Static}
+					if o == own {
+						first = false
+					}
+				}
+			}
+		}
 	}
 	return c
 }
